@@ -221,6 +221,8 @@ func (s *subscriberImpl[T]) Error(err error) {
 // Implements Observer.
 func (s *subscriberImpl[T]) ErrorWithContext(ctx context.Context, err error) {
 	s.mu.Lock()
+	defer s.unsubscribe() // once the lock is released: deferred calls run in reverse order
+	defer s.mu.Unlock()   // deferred: a downstream teardown may panic inside the terminal notification
 
 	if atomic.CompareAndSwapInt32(&s.status, 0, 1) {
 		if s.destination != nil {
@@ -229,10 +231,6 @@ func (s *subscriberImpl[T]) ErrorWithContext(ctx context.Context, err error) {
 	} else {
 		OnDroppedNotification(ctx, NewNotificationError[T](err))
 	}
-
-	s.mu.Unlock()
-
-	s.unsubscribe()
 }
 
 // Implements Observer.
@@ -243,6 +241,8 @@ func (s *subscriberImpl[T]) Complete() {
 // Implements Observer.
 func (s *subscriberImpl[T]) CompleteWithContext(ctx context.Context) {
 	s.mu.Lock()
+	defer s.unsubscribe() // once the lock is released: deferred calls run in reverse order
+	defer s.mu.Unlock()   // deferred: a downstream teardown may panic inside the terminal notification
 
 	if atomic.CompareAndSwapInt32(&s.status, 0, 2) {
 		if s.destination != nil {
@@ -251,10 +251,6 @@ func (s *subscriberImpl[T]) CompleteWithContext(ctx context.Context) {
 	} else {
 		OnDroppedNotification(ctx, NewNotificationComplete[T]())
 	}
-
-	s.mu.Unlock()
-
-	s.unsubscribe()
 }
 
 // Implements Observer.
